@@ -221,7 +221,7 @@ Fixpoint take_chs (s : str) : str :=
 Definition id_from_header (h : str) : option str :=
   match take_chs h with [] => None | w => Some w end.
 
-(* fasta.py:47-79 restricted to the first yielded record; state = header and data so far *)
+(* fasta.py:47-84 restricted to the first yielded record; state = header and data so far *)
 Fixpoint fasta_first (ls : list str) (cur : option (str * str)) : res (str * str) :=
   match ls with
   | [] => match cur with Some hd => Ok hd | None => Err (bs "IndexError"%bs) end
@@ -233,7 +233,10 @@ Fixpoint fasta_first (ls : list str) (cur : option (str * str)) : res (str * str
         end
       else if starts_with SEMI l then fasta_first r cur
       else match cur with
-           | None => Err (bs "AttributeError"%bs)
+           | None => match strip_ws l with                                   (* :78-81 *)
+                     | [] => fasta_first r cur                                (* blank line before the first header *)
+                     | _ => Err (bs "ValueError"%bs)
+                     end
            | Some (h, d) => fasta_first r (Some (h, d ++ strip_ws l))
            end
   end.
@@ -398,6 +401,10 @@ Definition run_C09 (mode addmode : N) (reopen : bool) (order : list nat) (files 
       match scan_files reg 0 with
       | Err k => VE k
       | Ok es =>
+          (* fastaindex.py:244-247: a non-empty binary index refuses a further add call without force (addmode 3) *)
+          if N.eqb mode MODE_BINARY && N.eqb addmode 3 && (2 <=? length order)
+             && match scan_file (nth 0 reg []) 0 with Ok (_ :: _) => true | _ => false end
+          then VE (bs "ValueError"%bs) else
           match all_stored mode es with
           | Some k => VE k
           | None => VL [VI (Z.of_nat (distinct_ids es [])); VL (map (answer mode reg es) qs)]
